@@ -447,6 +447,245 @@ Definition ow_tx_state_response_headers (log_on lzma_on : bool) (sh : ow_ceshape
       ow_ret (ok, ow_mk_connp2 (ocp_set_conn p (Some c1)) chain (ocq_req q))
   end.
 
+(* ------------------------------------------------------------------ htp_urlencoded.c: parser create / destroy *)
+(* oup_pvals: the parameter values the table indexes (the names are the table's keys) *)
+Record ow_urlenp := ow_mk_urlenp { oup_self : ow_oid; oup_name : ow_oid; oup_bb : option ow_bb; oup_params : option ow_tbl; oup_pvals : list ow_oid }.
+
+(* htp_urlenp_create; cap = HTP_URLENP_DEFAULT_PARAMS_SIZE *)
+Definition ow_urlenp_create (cap : nat) (tx : ow_oid) : ow_M (option ow_urlenp) :=
+  u <- ow_malloc ;;
+  match u with
+  | None => ow_ret None
+  | Some _ =>
+    t <- ow_table_create cap ;;
+    match t with
+    | None => ow_free u ;;; ow_ret None
+    | Some _ =>
+      bb <- ow_builder_create ;;
+      match bb with
+      | None => ow_table_destroy t ;;; ow_free u ;;; ow_ret None
+      | Some _ => ow_ret (Some (ow_mk_urlenp u None bb t []))
+      end
+    end
+  end.
+
+Definition ow_urlenp_destroy (u : option ow_urlenp) : ow_M unit :=
+  match u with
+  | None => ow_ret tt
+  | Some u =>
+    ow_use (oup_self u) ;;;
+    ow_free (oup_name u) ;;;
+    ow_builder_destroy (oup_bb u) ;;;
+    (match oup_params u with
+     | None => ow_ret tt
+     | Some t => ow_use (oot_self t) ;;; ow_iter ow_free (oup_pvals u) ;;; ow_table_destroy (Some t)
+     end) ;;;
+    ow_free (oup_self u)
+  end.
+
+(* ------------------------------------------------------------------ htp_multipart.c: parser create / destroy *)
+(* omp_pvals: the parts of multipart.parts, each with "is a text part" (their name and value belong to the transaction's
+   parameters once the parser gave up its data: htp_mpart_part_destroy(part, gave_up_data)) *)
+Record ow_mpartp := ow_mk_mpartp {
+  omp_self : ow_oid; omp_boundary : ow_oid;
+  omp_bp : option ow_bb; omp_hp : option ow_bb; omp_dp : option ow_bb;      (* boundary_pieces, part_header_pieces, part_data_pieces *)
+  omp_pending : ow_oid;
+  omp_parts : option ow_lst; omp_pvals : list (ow_part * bool); omp_gave_up : bool
+}.
+
+(* htp_mpart_part_destroy(part, gave_up_data) *)
+Definition ow_part_destroy_gen (gave_up : bool) (pt : ow_part * bool) : ow_M unit :=
+  let p := fst pt in
+  ow_use (opt_self p) ;;;
+  (match opt_file p with
+   | None => ow_ret tt
+   | Some f => ow_use (ofl_self f) ;;; ow_free (ofl_name f) ;;; ow_free (ofl_tmp f) ;;; ow_free (ofl_self f)
+   end) ;;;
+  (if negb gave_up || negb (snd pt) then ow_free (opt_name p) ;;; ow_free (opt_value p) else ow_ret tt) ;;;
+  ow_free (opt_ctype p) ;;;
+  (match opt_hdrs p with
+   | None => ow_ret tt
+   | Some t => ow_use (oot_self t) ;;; ow_iter ow_hdr_free (opt_hvals p) ;;; ow_table_destroy (Some t)
+   end) ;;;
+  ow_free (opt_self p).
+
+Definition ow_mpartp_destroy (m : option ow_mpartp) : ow_M unit :=
+  match m with
+  | None => ow_ret tt
+  | Some m =>
+    ow_use (omp_self m) ;;;
+    ow_free (omp_boundary m) ;;;
+    ow_builder_destroy (omp_bp m) ;;;
+    ow_builder_destroy (omp_hp m) ;;;
+    ow_free (omp_pending m) ;;;
+    ow_builder_destroy (omp_dp m) ;;;
+    (match omp_parts m with
+     | None => ow_ret tt
+     | Some l => ow_use (ool_self l) ;;; ow_iter (ow_part_destroy_gen (omp_gave_up m)) (omp_pvals m) ;;; ow_list_destroy (Some l)
+     end) ;;;
+    ow_free (omp_self m)
+  end.
+
+(* htp_mpartp_create; cap = the initial size of multipart.parts.  The boundary string is released on success only;
+   every failure goes through htp_mpartp_destroy on the partially built parser *)
+Definition ow_mpartp_create (cap : nat) (cfg boundary : ow_oid) : ow_M (option ow_mpartp) :=
+  if ow_isnull cfg || ow_isnull boundary then ow_ret None else
+  p <- ow_malloc ;;
+  match p with
+  | None => ow_ret None
+  | Some _ =>
+    let m0 := ow_mk_mpartp p None None None None None None [] false in
+    bp <- ow_builder_create ;;
+    match bp with
+    | None => ow_mpartp_destroy (Some m0) ;;; ow_ret None
+    | Some _ =>
+      let m1 := ow_mk_mpartp p None bp None None None None [] false in
+      dp <- ow_builder_create ;;
+      match dp with
+      | None => ow_mpartp_destroy (Some m1) ;;; ow_ret None
+      | Some _ =>
+        let m2 := ow_mk_mpartp p None bp None dp None None [] false in
+        hp <- ow_builder_create ;;
+        match hp with
+        | None => ow_mpartp_destroy (Some m2) ;;; ow_ret None
+        | Some _ =>
+          let m3 := ow_mk_mpartp p None bp hp dp None None [] false in
+          l <- ow_list_create cap ;;
+          match l with
+          | None => ow_mpartp_destroy (Some m3) ;;; ow_ret None
+          | Some _ =>
+            let m4 := ow_mk_mpartp p None bp hp dp None l [] false in
+            ow_use cfg ;;; ow_use boundary ;;;
+            b <- ow_malloc ;;
+            match b with
+            | None => ow_mpartp_destroy (Some m4) ;;; ow_ret None
+            | Some _ => ow_use b ;;; ow_free boundary ;;; ow_ret (Some (ow_mk_mpartp p b bp hp dp None l [] false))
+            end
+          end
+        end
+      end
+    end
+  end.
+
+(* ------------------------------------------------------------------ htp_tx_destroy: the transaction with its request parsers *)
+Record ow_tx_full := ow_mk_tx_full { otf_tx : ow_tx; otf_uq : option ow_urlenp; otf_ub : option ow_urlenp; otf_mp : option ow_mpartp }.
+
+(* htp_tx_destroy_incomplete with request_urlenp_query, request_urlenp_body, request_mpartp *)
+Definition ow_tx_destroy_full (t : ow_tx_full) : ow_M unit :=
+  let tx := otf_tx t in
+  ow_use (otx_self tx) ;;;
+  ow_use (otx_conn tx) ;;;
+  ow_use (otx_connp tx) ;;;
+  ow_iter ow_free (otx_req_strs tx) ;;;
+  ow_uri_free (otx_uri_raw tx) ;;;
+  ow_uri_free (otx_uri tx) ;;;
+  ow_free (otx_auth_user tx) ;;;
+  ow_free (otx_auth_pass tx) ;;;
+  (match otx_req_hdrs tx with
+   | None => ow_ret tt
+   | Some t => ow_use (oot_self t) ;;; ow_iter ow_hdr_free (otx_req_hvals tx) ;;; ow_table_destroy (Some t)
+   end) ;;;
+  ow_urlenp_destroy (otf_uq t) ;;;
+  ow_urlenp_destroy (otf_ub t) ;;;
+  ow_mpartp_destroy (otf_mp t) ;;;
+  ow_iter ow_hdr_free (otx_pvals tx) ;;;
+  ow_table_destroy (otx_params tx) ;;;
+  (match otx_cookies tx with
+   | None => ow_ret tt
+   | Some t => ow_use (oot_self t) ;;; ow_iter ow_free (otx_cvals tx) ;;; ow_table_destroy (Some t)
+   end) ;;;
+  ow_hook_destroy (otx_hook_req tx) ;;;
+  ow_hook_destroy (otx_hook_res tx) ;;;
+  ow_iter ow_free (otx_res_strs tx) ;;;
+  (match otx_res_hdrs tx with
+   | None => ow_ret tt
+   | Some t => ow_use (oot_self t) ;;; ow_iter ow_hdr_free (otx_res_hvals tx) ;;; ow_table_destroy (Some t)
+   end) ;;;
+  ow_free (otx_self tx).
+
+(* htp_tx_destroy: refuses a transaction that is not complete *)
+Definition ow_tx_destroy (complete : bool) (t : ow_tx_full) : ow_M bool :=
+  ow_use (otx_self (otf_tx t)) ;;;
+  if complete then ow_tx_destroy_full t ;;; ow_ret true else ow_ret false.
+
+Definition otx_set_req_strs (tx : ow_tx) (l : list ow_oid) : ow_tx :=
+  ow_mk_tx (otx_self tx) (otx_conn tx) (otx_connp tx) l (otx_uri_raw tx) (otx_uri tx) (otx_auth_user tx) (otx_auth_pass tx)
+        (otx_req_hdrs tx) (otx_req_hvals tx) (otx_params tx) (otx_pvals tx) (otx_cookies tx) (otx_cvals tx) (otx_hook_req tx) (otx_hook_res tx)
+        (otx_res_strs tx) (otx_res_hdrs tx) (otx_res_hvals tx) (otx_rep tx).
+
+Definition otx_set_res_strs (tx : ow_tx) (l : list ow_oid) : ow_tx :=
+  ow_mk_tx (otx_self tx) (otx_conn tx) (otx_connp tx) (otx_req_strs tx) (otx_uri_raw tx) (otx_uri tx) (otx_auth_user tx) (otx_auth_pass tx)
+        (otx_req_hdrs tx) (otx_req_hvals tx) (otx_params tx) (otx_pvals tx) (otx_cookies tx) (otx_cvals tx) (otx_hook_req tx) (otx_hook_res tx)
+        l (otx_res_hdrs tx) (otx_res_hvals tx) (otx_rep tx).
+
+(* ------------------------------------------------------------------ the start-line parsers *)
+(* positions in otx_req_strs / otx_res_strs *)
+Definition c_otx_request_line := 0.  Definition c_otx_request_method := 1.  Definition c_otx_request_protocol := 3.
+Definition c_otx_response_line := 0.  Definition c_otx_response_protocol := 1.  Definition c_otx_response_status := 2.
+Definition c_otx_response_message := 3.
+
+(* tx->field = bstr_dup_mem(...): the field holds the result, NULL included *)
+Definition ow_dup_into_req (tx : ow_tx) (i : nat) : ow_M (bool * ow_tx) :=
+  b <- ow_bstr_dup_mem ;; ow_ret (negb (ow_isnull b), otx_set_req_strs tx (ow_set_nth (otx_req_strs tx) i b)).
+Definition ow_dup_into_res (tx : ow_tx) (i : nat) : ow_M (bool * ow_tx) :=
+  b <- ow_bstr_dup_mem ;; ow_ret (negb (ow_isnull b), otx_set_res_strs tx (ow_set_nth (otx_res_strs tx) i b)).
+
+(* htp_parse_response_line_generic (htp_response_generic.c); parts: how many of protocol, status, message the line has.
+   The three fields are set to NULL first (not released) *)
+Definition ow_parse_response_line (parts : nat) (connp : ow_oid) (tx : ow_tx) : ow_M (bool * ow_tx) :=
+  ow_use connp ;;; ow_use (otx_self tx) ;;;
+  ow_use (nth c_otx_response_line (otx_res_strs tx) None) ;;;
+  let tx0 := otx_set_res_strs tx (ow_set_nth (ow_set_nth (ow_set_nth (otx_res_strs tx) c_otx_response_protocol None)
+                                                 c_otx_response_status None) c_otx_response_message None) in
+  if parts =? 0 then ow_ret (true, tx0) else
+  r1 <- ow_dup_into_res tx0 c_otx_response_protocol ;;
+  if negb (fst r1) then ow_ret (false, snd r1) else
+  ow_use (nth c_otx_response_protocol (otx_res_strs (snd r1)) None) ;;;          (* htp_parse_protocol *)
+  if parts =? 1 then ow_ret (true, snd r1) else
+  r2 <- ow_dup_into_res (snd r1) c_otx_response_status ;;
+  if negb (fst r2) then ow_ret (false, snd r2) else
+  ow_use (nth c_otx_response_status (otx_res_strs (snd r2)) None) ;;;            (* htp_parse_status *)
+  if parts =? 2 then ow_ret (true, snd r2) else
+  r3 <- ow_dup_into_res (snd r2) c_otx_response_message ;;
+  ow_ret (fst r3, snd r3).
+
+(* htp_parse_request_line_generic_ex (htp_request_generic.c) *)
+Record ow_rlshape := ow_mk_rlshape {
+  orl_lead_ws : bool;            (* whitespace before the method: a log message *)
+  orl_bad_delim1 : bool;         (* a delimiter other than SP between method and URI: a log message *)
+  orl_method_only : bool;        (* nothing after the method *)
+  orl_unknown_method : bool;
+  orl_bad_delim2 : bool;         (* whitespace other than SP inside the URI: a log message *)
+  orl_no_protocol : bool;        (* nothing after the URI *)
+  orl_invalid_protocol : bool
+}.
+Definition ow_log_if (b log_on : bool) (connp : ow_oid) (c : ow_conn) : ow_M ow_conn :=
+  if b then ow_log_msg log_on connp c else ow_ret c.
+
+Definition ow_parse_request_line (log_on : bool) (sh : ow_rlshape) (connp : ow_oid) (c : ow_conn) (tx : ow_tx)
+  : ow_M (bool * ow_conn * ow_tx) :=
+  ow_use connp ;;; ow_use (otx_self tx) ;;;
+  ow_use (nth c_otx_request_line (otx_req_strs tx) None) ;;;
+  c1 <- ow_log_if (orl_lead_ws sh) log_on connp c ;;
+  r1 <- ow_dup_into_req tx c_otx_request_method ;;
+  if negb (fst r1) then ow_ret (false, c1, snd r1) else
+  ow_use (nth c_otx_request_method (otx_req_strs (snd r1)) None) ;;;            (* htp_convert_method_to_number *)
+  c2 <- ow_log_if (orl_bad_delim1 sh) log_on connp c1 ;;
+  if orl_method_only sh then
+    c3 <- ow_log_if (orl_unknown_method sh) log_on connp c2 ;; ow_ret (true, c3, snd r1)
+  else
+  c3 <- ow_log_if (orl_bad_delim2 sh) log_on connp c2 ;;
+  r2 <- ow_dup_into_req (snd r1) c_otx_request_uri ;;
+  if negb (fst r2) then ow_ret (false, c3, snd r2) else
+  if orl_no_protocol sh then
+    c4 <- ow_log_if (orl_unknown_method sh) log_on connp c3 ;; ow_ret (true, c4, snd r2)
+  else
+  r3 <- ow_dup_into_req (snd r2) c_otx_request_protocol ;;
+  if negb (fst r3) then ow_ret (false, c3, snd r3) else
+  ow_use (nth c_otx_request_protocol (otx_req_strs (snd r3)) None) ;;;          (* htp_parse_protocol *)
+  c4 <- ow_log_if (orl_unknown_method sh && orl_invalid_protocol sh) log_on connp c3 ;;
+  ow_ret (true, c4, snd r3).
+
 (* ------------------------------------------------------------------ cases (harness protocol, mirrored by harness/own2_driver.c) *)
 (* a hostport shape is 6 numbers *)
 Definition ow_hpshape_of (a : list nat) (i : nat) : ow_hpshape :=
@@ -502,11 +741,6 @@ Definition ow_case_normalize (a : list nat) (k : nat) :=
       ow_ret [ow_b2n (fst r)]
     | _, _ => ow_ret [9]
     end).
-
-Definition otx_set_req_strs (tx : ow_tx) (l : list ow_oid) : ow_tx :=
-  ow_mk_tx (otx_self tx) (otx_conn tx) (otx_connp tx) l (otx_uri_raw tx) (otx_uri tx) (otx_auth_user tx) (otx_auth_pass tx)
-        (otx_req_hdrs tx) (otx_req_hvals tx) (otx_params tx) (otx_pvals tx) (otx_cookies tx) (otx_cvals tx) (otx_hook_req tx) (otx_hook_res tx)
-        (otx_res_strs tx) (otx_res_hdrs tx) (otx_res_hvals tx) (otx_rep tx).
 
 (* args: CONNECT, request_uri is NULL, the hostport shape (6), the URI shape (8) *)
 Definition ow_case_request_line (a : list nat) (k : nat) :=
@@ -653,6 +887,94 @@ Definition ow_case_res_state_headers (a : list nat) (k : nat) :=
                 ow_ret [ow_b2n (fst r); length (ocq_out (snd r))]
               end).
 
+(* ---- request parsers.  args: table size (HTP_URLENP_DEFAULT_PARAMS_SIZE) *)
+Definition ow_case_urlenp (a : list nat) (k : nat) :=
+  ow_case ow_malloc k (fun tx => u <- ow_urlenp_create (ow_arg a 0) tx ;; ow_urlenp_destroy u ;;; ow_ret [ow_optbit u]).
+
+(* args: initial size of the parts list, the boundary is NULL.  The caller makes the boundary string and releases it
+   when the parser could not be created *)
+Definition ow_case_mpartp (a : list nat) (k : nat) :=
+  ow_case ow_malloc k (fun cfg =>
+    b <- (if ow_nb (ow_arg a 1) then ow_ret None else ow_bstr_alloc) ;;
+    m <- ow_mpartp_create (ow_arg a 0) cfg b ;;
+    (match m with None => ow_free b | Some _ => ow_ret tt end) ;;;
+    ow_mpartp_destroy m ;;;
+    ow_ret [ow_nullbit b; ow_optbit m]).
+
+(* args: the transaction is complete, table size, parts list size.  The three request parsers are created and attached,
+   htp_tx_destroy; when it refuses, the caller releases the parsers; then the connection parser is destroyed *)
+Definition ow_case_tx_full (a : list nat) (k : nat) :=
+  ow_case (p <- ow_connp_with_tx ;; cfg <- ow_malloc ;; ow_ret (p, cfg)) k
+    (fun w => match fst w with
+              | None => ow_ret [9]
+              | Some p =>
+                match ocp_conn p with
+                | None => ow_ret [9]
+                | Some c =>
+                  match ow_split_last (ocn_txs c) with
+                  | Some (rest, Some tx) =>
+                    uq <- ow_urlenp_create (ow_arg a 1) (otx_self tx) ;;
+                    ub <- ow_urlenp_create (ow_arg a 1) (otx_self tx) ;;
+                    b <- ow_bstr_alloc ;;
+                    mp <- ow_mpartp_create (ow_arg a 2) (snd w) b ;;
+                    (match mp with None => ow_free b | Some _ => ow_ret tt end) ;;;
+                    r <- ow_tx_destroy (ow_nb (ow_arg a 0)) (ow_mk_tx_full tx uq ub mp) ;;
+                    (if r then ow_ret tt else ow_urlenp_destroy uq ;;; ow_urlenp_destroy ub ;;; ow_mpartp_destroy mp) ;;;
+                    ow_connp_destroy_all (Some (ocp_set_conn p (Some (ocn_set_txs c (ocn_txl c) (rest ++ [if r then None else Some tx]))))) ;;;
+                    ow_ret [ow_optbit uq; ow_optbit ub; ow_nullbit b; ow_optbit mp; ow_b2n r]
+                  | _ => ow_ret [9]
+                  end
+                end
+              end).
+
+(* ---- start lines.  The line itself is a string of the transaction made by the harness before the window *)
+(* args: parts of the response line (0..3) *)
+Definition ow_case_res_line (a : list nat) (k : nat) :=
+  ow_case (p <- ow_connp_with_tx ;;
+           match p with
+           | None => ow_ret None
+           | Some p =>
+             l <- ow_bstr_alloc ;;
+             r <- ow_with_in_tx p tt (fun c tx => ow_ret (tt, c, otx_set_res_strs tx (ow_set_nth (otx_res_strs tx) c_otx_response_line l))) ;;
+             ow_ret (Some (snd r))
+           end) k
+    (fun p => match p with
+              | None => ow_ret [9]
+              | Some p =>
+                r <- ow_with_in_tx p [9] (fun c tx =>
+                       x <- ow_parse_response_line (ow_arg a 0) (ocp_self p) tx ;;
+                       ow_ret ([ow_b2n (fst x); ow_nullbit (nth c_otx_response_protocol (otx_res_strs (snd x)) None);
+                                ow_nullbit (nth c_otx_response_status (otx_res_strs (snd x)) None);
+                                ow_nullbit (nth c_otx_response_message (otx_res_strs (snd x)) None)], c, snd x)) ;;
+                ow_connp_destroy_all (Some (snd r)) ;;;
+                ow_ret (fst r)
+              end).
+
+(* args: log on, then the seven bits of the shape *)
+Definition ow_case_req_line (a : list nat) (k : nat) :=
+  ow_case (p <- ow_connp_with_tx ;;
+           match p with
+           | None => ow_ret None
+           | Some p =>
+             l <- ow_bstr_alloc ;;
+             r <- ow_with_in_tx p tt (fun c tx => ow_ret (tt, c, otx_set_req_strs tx (ow_set_nth (otx_req_strs tx) c_otx_request_line l))) ;;
+             ow_ret (Some (snd r))
+           end) k
+    (fun p => match p with
+              | None => ow_ret [9]
+              | Some p =>
+                r <- ow_with_in_tx p [9] (fun c tx =>
+                       x <- ow_parse_request_line (ow_nb (ow_arg a 0))
+                              (ow_mk_rlshape (ow_nb (ow_arg a 1)) (ow_nb (ow_arg a 2)) (ow_nb (ow_arg a 3)) (ow_nb (ow_arg a 4))
+                                             (ow_nb (ow_arg a 5)) (ow_nb (ow_arg a 6)) (ow_nb (ow_arg a 7))) (ocp_self p) c tx ;;
+                       let '(ok, c1, tx1) := x in
+                       ow_ret ([ow_b2n ok; ow_nullbit (nth c_otx_request_method (otx_req_strs tx1) None);
+                                ow_nullbit (nth c_otx_request_uri (otx_req_strs tx1) None);
+                                ow_nullbit (nth c_otx_request_protocol (otx_req_strs tx1) None)], c1, tx1)) ;;
+                ow_connp_destroy_all (Some (snd r)) ;;;
+                ow_ret (fst r)
+              end).
+
 Definition ow_run_case2 (fn : nat) (a : list nat) (k : nat) : ow_res (list nat) :=
   match fn with
   | 0 => ow_case_hostport a k
@@ -665,5 +987,10 @@ Definition ow_run_case2 (fn : nat) (a : list nat) (k : nat) : ow_res (list nat) 
   | 7 => ow_case_decomp_create a k
   | 8 => ow_case_decomp_used a k
   | 9 => ow_case_res_state_headers a k
+  | 10 => ow_case_urlenp a k
+  | 11 => ow_case_mpartp a k
+  | 12 => ow_case_tx_full a k
+  | 13 => ow_case_res_line a k
+  | 14 => ow_case_req_line a k
   | _ => OwOk [] (ow_init ow_never)
   end.
